@@ -714,6 +714,35 @@ def static_obligations(reg, tier):
                 for t_ in (n.targets if isinstance(n, ast.Assign) else [n.target]):
                     if (isinstance(t_, ast.Name) and t_.id == 'frame' and ast.unparse(n) != 'frame = frame_stack.peek()') or ast.unparse(t_) in ('self.analyzed_method_list', 'frame.method_id'):
                         hazards.append(ast.unparse(n)[:60])
+    # merging callee fields into argument states: the descent over (possibly cyclic / shared) object graphs is cut by a marker keyed by what is being merged. The key must be
+    # able to REPEAT when the graph comes back to the same pair of state sets: it may mention the statement, the two state sets and the symbol only — not the access path,
+    # which grows with every descent — and the in-progress marker is set before anything descends. Structural.
+    ss = source.load('src/lian/core/stmt_states.py').function('StmtStates.recursively_collect_children_fields')
+    inner = [n for n in ast.walk(ss) if isinstance(n, ast.FunctionDef) and n.name == '_recursively_collect_children_fields']
+    guard_ok, guard_detail = False, 'nested function _recursively_collect_children_fields not found'
+    if inner:
+        fn_ = inner[0]
+        body = [b_ for b_ in fn_.body if not (isinstance(b_, ast.Expr) and isinstance(b_.value, ast.Constant))]
+        params = [a_.arg for a_ in fn_.args.args]
+        allowed_names = {'stmt_id', 'state_set_in_summary_field', 'state_set_in_arg_field', 'source_symbol_id', 'frozenset', 'tuple', 'sorted'}
+        k0 = body[0] if body else None
+        key_ok = isinstance(k0, ast.Assign) and ast.unparse(k0.targets[0]) == 'cache_key' and isinstance(k0.value, ast.Tuple) and \
+            {n.id for n in ast.walk(k0.value) if isinstance(n, ast.Name)} <= allowed_names and \
+            {'state_set_in_summary_field', 'state_set_in_arg_field'} <= {n.id for n in ast.walk(k0.value) if isinstance(n, ast.Name)} and \
+            not any(isinstance(n, ast.Call) and ast.unparse(n.func) not in ('frozenset', 'tuple', 'sorted') for n in ast.walk(k0.value))
+        rebinds = [ast.unparse(n)[:40] for n in ast.walk(fn_) if isinstance(n, (ast.Assign, ast.AugAssign)) and n is not k0 and any(
+            ast.unparse(t_) == 'cache_key' for t_ in (n.targets if isinstance(n, ast.Assign) else [n.target]))]
+        check = body[1] if len(body) > 1 else None
+        check_ok = isinstance(check, ast.If) and ast.unparse(check.test) == 'cache_key in cache' and isinstance(check.body[-1], ast.Return)
+        mark_pos = [i_ for i_, b_ in enumerate(body) if ast.unparse(b_) == 'cache[cache_key] = None']
+        descents = [i_ for i_, b_ in enumerate(body) if any(isinstance(n, ast.Call) and ast.unparse(n.func) in ('_recursively_collect_children_fields', '_collect_children_fields',
+                                                                                                              '_merge_fields', '_recursively_merge') or
+                                                             (isinstance(n, ast.Call) and isinstance(n.func, ast.Name) and n.func.id.startswith('_') and n.func.id != '_recursively_collect_children_fields')
+                                                             for n in ast.walk(b_))]
+        guard_ok = bool(key_ok and not rebinds and check_ok and mark_pos and mark_pos[0] == 2 and all(d_ > mark_pos[0] for d_ in descents) and 'access_path' in params)
+        guard_detail = f'key: {ast.unparse(k0)[:160] if k0 is not None else None}; rebinds {rebinds}; check_ok {check_ok}; marker at {mark_pos}; descents at {descents[:4]}'
+    res('field-merge-descent:the-recursion-guard-is-keyed-by-the-merged-state-sets-only-(a-key-that-repeats-on-cyclic-and-shared-object-graphs)-and-is-set-before-descending',
+        guard_ok, guard_detail)
     res('phase-II-frame-driver:a-frame-is-popped-only-after-its-method-is-recorded-in-analyzed_method_list', bool(pops) and not bad_pops and not hazards,
         f'analyze_method: frame_stack.pop() at line(s) {bad_pops} not preceded by `{RECORD}` in its block / an enclosing block of the same iteration; hazards {hazards}; pops found {len(pops)}')
     return out
